@@ -71,56 +71,81 @@ struct MiriResult {
 
 fn run_miri(sim_dir: &Path, target: &Path, prof: Profile, prop: &str, base: u64, workloads: u64, seeds: u64) -> MiriResult {
     let t0 = Instant::now();
-    let mut res = MiriResult { workloads: 0, executions: 0, failures: Vec::new(), error: None, wall_s: 0.0, cmds: Vec::new() };
-    for w in 0..workloads {
-        let wseed = base.wrapping_mul(1000).wrapping_add(w);
-        let flags = format!("-Zmiri-many-seeds={}..{} -Zmiri-preemption-rate=0.05", base, base + seeds);
-        let mut cmd = Command::new("cargo");
-        cmd.current_dir(sim_dir)
-            .env("MIRIFLAGS", &flags)
-            .env("CARGO_NET_OFFLINE", "true")
-            .env("CARGO_TARGET_DIR", target)
-            .args(["+nightly", "miri", "run", "--offline", "--no-default-features", "--quiet", "--", "miri", "--prop", prop, "--profile", prof.name(), "--seed", &wseed.to_string()])
-            .stdout(Stdio::piped())
-            .stderr(Stdio::piped());
-        res.cmds.push(format!("MIRIFLAGS=\"{flags}\" cargo +nightly miri run --offline --no-default-features -- miri --prop {prop} --profile {} --seed {wseed}", prof.name()));
-        match cmd.output() {
-            Err(e) => {
-                res.error = Some(format!("cannot start cargo miri: {e}"));
-                break;
-            }
-            Ok(out) => {
-                let so = String::from_utf8_lossy(&out.stdout);
-                let se = String::from_utf8_lossy(&out.stderr);
-                let runs = so.lines().filter(|l| l.starts_with("MIRI-RUN")).count() as u64;
-                res.workloads += 1;
-                res.executions += runs;
-                if !out.status.success() {
-                    let diag = se
-                        .lines()
-                        .chain(so.lines())
-                        .find(|l| l.contains("Undefined Behavior") || l.contains("Data race") || l.starts_with("VIOL ") || l.starts_with("NON-UNWINDING-PANIC") || l.contains("unsafe precondition") || l.contains("memory leaked"))
-                        .map(str::to_string);
-                    match diag {
-                        Some(d) => {
-                            let seedline = se.lines().chain(so.lines()).find(|l| l.contains("FAILING SEED")).unwrap_or("").to_string();
-                            res.failures.push((wseed, format!("{d} {seedline}")));
-                        }
-                        None => {
-                            let tail: Vec<&str> = se.lines().rev().take(12).collect();
-                            res.error = Some(format!("cargo miri failed without a recognisable diagnostic: {}", tail.into_iter().rev().collect::<Vec<_>>().join(" | ")));
-                            break;
-                        }
-                    }
-                } else if runs == 0 {
-                    res.error = Some("cargo miri succeeded but the workload printed no MIRI-RUN line".into());
+    let res = std::sync::Mutex::new(MiriResult { workloads: 0, executions: 0, failures: Vec::new(), error: None, wall_s: 0.0, cmds: Vec::new() });
+    // build once, so that the parallel invocations below do not queue on cargo's build lock
+    let warm = Command::new("cargo")
+        .current_dir(sim_dir)
+        .env("CARGO_NET_OFFLINE", "true")
+        .env("CARGO_TARGET_DIR", target)
+        .env("MIRIFLAGS", "")
+        .args(["+nightly", "miri", "run", "--offline", "--no-default-features", "--quiet", "--", "evalone", "/nonexistent"])
+        .output();
+    if let Err(e) = warm {
+        let mut r = res.into_inner().unwrap_or_else(std::sync::PoisonError::into_inner);
+        r.error = Some(format!("cannot start cargo miri: {e}"));
+        return r;
+    }
+    // each invocation runs its `seeds` Miri seeds in parallel by itself; run several invocations
+    // at once when the seed count leaves cores idle
+    let par = (16 / seeds.max(1)).clamp(1, 8);
+    let next = std::sync::atomic::AtomicU64::new(0);
+    std::thread::scope(|sc| {
+        for _ in 0..par {
+            sc.spawn(|| loop {
+                let w = next.fetch_add(1, std::sync::atomic::Ordering::Relaxed);
+                if w >= workloads || res.lock().map_or(true, |r| r.error.is_some()) {
                     break;
                 }
-            }
+                let wseed = base.wrapping_mul(1000).wrapping_add(w);
+                let flags = format!("-Zmiri-many-seeds={}..{} -Zmiri-preemption-rate=0.05", base, base + seeds);
+                let out = Command::new("cargo")
+                    .current_dir(sim_dir)
+                    .env("MIRIFLAGS", &flags)
+                    .env("CARGO_NET_OFFLINE", "true")
+                    .env("CARGO_TARGET_DIR", target)
+                    .args(["+nightly", "miri", "run", "--offline", "--no-default-features", "--quiet", "--", "miri", "--prop", prop, "--profile", prof.name(), "--seed", &wseed.to_string()])
+                    .stdout(Stdio::piped())
+                    .stderr(Stdio::piped())
+                    .output();
+                let mut r = res.lock().unwrap_or_else(std::sync::PoisonError::into_inner);
+                r.cmds.push(format!("MIRIFLAGS=\"{flags}\" cargo +nightly miri run --offline --no-default-features -- miri --prop {prop} --profile {} --seed {wseed}", prof.name()));
+                match out {
+                    Err(e) => r.error = Some(format!("cannot start cargo miri: {e}")),
+                    Ok(out) => {
+                        let so = String::from_utf8_lossy(&out.stdout);
+                        let se = String::from_utf8_lossy(&out.stderr);
+                        let runs = so.lines().filter(|l| l.starts_with("MIRI-RUN")).count() as u64;
+                        r.workloads += 1;
+                        r.executions += runs;
+                        if !out.status.success() {
+                            let diag = se
+                                .lines()
+                                .chain(so.lines())
+                                .find(|l| l.contains("Undefined Behavior") || l.contains("Data race") || l.starts_with("VIOL ") || l.starts_with("NON-UNWINDING-PANIC") || l.contains("unsafe precondition") || l.contains("memory leaked"))
+                                .map(str::to_string);
+                            match diag {
+                                Some(d) => {
+                                    let seedline = se.lines().chain(so.lines()).find(|l| l.contains("FAILING SEED")).unwrap_or("").to_string();
+                                    r.failures.push((wseed, format!("{d} {seedline}")));
+                                }
+                                None => {
+                                    let tail: Vec<&str> = se.lines().rev().take(12).collect();
+                                    r.error = Some(format!("cargo miri failed without a recognisable diagnostic: {}", tail.into_iter().rev().collect::<Vec<_>>().join(" | ")));
+                                }
+                            }
+                        } else if runs == 0 {
+                            r.error = Some("cargo miri succeeded but the workload printed no MIRI-RUN line".into());
+                        }
+                    }
+                }
+            });
         }
-    }
-    res.wall_s = t0.elapsed().as_secs_f64();
-    res
+    });
+    let mut r = res.into_inner().unwrap_or_else(std::sync::PoisonError::into_inner);
+    r.failures.sort();
+    r.cmds.sort();
+    r.wall_s = t0.elapsed().as_secs_f64();
+    r
 }
 
 fn exe() -> PathBuf {
@@ -176,7 +201,9 @@ fn minimise(mut best: Trace, prop: &str, key: &str, scratch: &Path) -> (Trace, u
         if cand == *best || !budget_ok(*execs) {
             return false;
         }
-        if reproduces(&cand, prop, key, scratch, execs) {
+        // twice: a failure that shows stale heap contents can be flaky once the allocator's
+        // fill pattern or the surrounding allocations are shrunk away
+        if reproduces(&cand, prop, key, scratch, execs) && reproduces(&cand, prop, key, scratch, execs) {
             *best = cand;
             true
         } else {
@@ -257,15 +284,21 @@ fn minimise(mut best: Trace, prop: &str, key: &str, scratch: &Path) -> (Trace, u
                 }
             }
             // 4. knobs
-            for which in 0..4 {
+            for which in 0..5 {
                 let mut c = best.clone();
                 let r = &mut c.runs[ri];
                 match which {
+                    4 => r.knobs.repeat = 1,
                     0 => {
                         r.sched.clear();
                         r.knobs.preempt = 0;
                     }
-                    1 => r.knobs.heap = 0,
+                    1 => {
+                        if key.starts_with("I3") || key.starts_with("I4") {
+                            continue; // the fill pattern is what makes stale-memory reads deterministic
+                        }
+                        r.knobs.heap = 0;
+                    }
                     2 => {
                         if key.starts_with("I3:ref-process") {
                             continue;
@@ -339,6 +372,72 @@ fn minimise(mut best: Trace, prop: &str, key: &str, scratch: &Path) -> (Trace, u
     (best, execs)
 }
 
+/// A failure of the stress phase (real concurrency, found under the OS scheduler). Turn it into
+/// the best replay available: (1) the same programme, Miri-sized, under Miri with many seeds - if
+/// one of them fails, that (trace, Miri seed) pair replays exactly; (2) otherwise the native
+/// trace, with the measured failure frequency, to be re-executed until it fails.
+fn stress_replay(vdir: &Path, prof: Profile, prop: &str, seed: u64, first: &Viol, scratch: &Path, note: &mut String) -> PathBuf {
+    let _ = std::fs::create_dir_all(vdir.join("replay"));
+    let tr = generate_only(prof, seed, first.idx, first.idx + 1);
+    let native = vdir.join("replay").join(format!("{prop}-seed{seed}-run{}.stress.trace", first.idx));
+    let (mut fails, tries, mut execs) = (0u32, 10u32, 0u64);
+    for _ in 0..tries {
+        let path = scratch.join(format!("stress-{}-{}.trace", std::process::id(), execs));
+        execs += 1;
+        if std::fs::write(&path, tr.to_text()).is_ok() {
+            let st = Command::new(exe()).arg("replay").arg(&path).args(["--prop", prop, "--attempts", "1"]).stdout(Stdio::null()).stderr(Stdio::null()).status();
+            if matches!(st, Ok(s) if s.code() == Some(1)) {
+                fails += 1;
+            }
+        }
+        let _ = std::fs::remove_file(&path);
+    }
+    let header = format!(
+        "# replay file for property {prop}: {} [{}]\n# {}\n# found by the free-running stress phase (real threads, OS scheduler): this trace failed in {fails} of {tries} fresh-process re-executions.\n# re-execute: /verif/check --replay {} (repeats the trace up to 20 times until the invariant fails)\n",
+        first.inv,
+        first.key,
+        first.msg.replace('\n', " "),
+        native.display()
+    );
+    let _ = std::fs::write(&native, format!("{header}{}", tr.to_text()));
+    note.push_str(&format!("stress-phase failure: native trace fails in {fails}/{tries} re-executions; "));
+    // Miri hand-off
+    let small = Trace { profile: tr.profile.clone(), runs: tr.runs.iter().map(crate::ops::miri_sized).collect() };
+    let mtrace = vdir.join("replay").join(format!("{prop}-seed{seed}-run{}.miri-trace", first.idx));
+    if std::fs::write(&mtrace, small.to_text()).is_err() {
+        return native;
+    }
+    let nseeds = 32;
+    let flags = format!("-Zmiri-many-seeds=0..{nseeds} -Zmiri-preemption-rate=0.05 -Zmiri-disable-isolation");
+    let out = Command::new("cargo")
+        .current_dir(vdir.join("sim"))
+        .env("MIRIFLAGS", &flags)
+        .env("CARGO_NET_OFFLINE", "true")
+        .env("CARGO_TARGET_DIR", vdir.join("target").join("miri"))
+        .args(["+nightly", "miri", "run", "--offline", "--no-default-features", "--quiet", "--", "miri", "--prop", prop, "--trace-file"])
+        .arg(&mtrace)
+        .output();
+    if let Ok(out) = out {
+        let all = format!("{}\n{}", String::from_utf8_lossy(&out.stderr), String::from_utf8_lossy(&out.stdout));
+        let failing: Option<u64> = all.split("FAILING SEED:").nth(1).and_then(|r| r.trim().split_whitespace().next()).and_then(|n| n.parse().ok());
+        let diag = all.lines().find(|l| l.starts_with("VIOL ") || l.contains("Undefined Behavior") || l.contains("Data race")).unwrap_or("").to_string();
+        if let (false, Some(n)) = (out.status.success(), failing) {
+            let path = vdir.join("replay").join(format!("{prop}-seed{seed}-run{}.miri.txt", first.idx));
+            let text = format!(
+                "# deterministic replay for property {prop} (scouted by the stress phase, reproduced under Miri seed {n})\n# diagnostic: {}\n# re-execute with /verif/check --replay <this file>, or directly:\ncd /verif/sim && MIRIFLAGS=\"-Zmiri-seed={n} -Zmiri-preemption-rate=0.05 -Zmiri-disable-isolation\" cargo +nightly miri run --offline --no-default-features -- miri --prop {prop} --trace-file {}\n# native (statistical) trace: {}\n",
+                diag.chars().take(400).collect::<String>(),
+                mtrace.display(),
+                native.display()
+            );
+            let _ = std::fs::write(&path, text);
+            note.push_str(&format!("reproduced deterministically under Miri (seed {n} of {nseeds})"));
+            return path;
+        }
+    }
+    note.push_str("Miri did not reproduce it within 32 seeds: the replay is statistical");
+    native
+}
+
 pub fn check_main(args: &[String]) -> i32 {
     let t0 = Instant::now();
     let Some(prop) = arg_val(args, "--prop") else {
@@ -360,7 +459,16 @@ pub fn check_main(args: &[String]) -> i32 {
     let default_runs = if tier == "quick" { 24_000 } else { 1_000_000 };
     let runs = arg_u64(args, "--runs", default_runs).max(jobs);
     let with_miri = (prop == "C07" || prop == "C11") && !args.iter().any(|a| a == "--no-miri");
-    let (miri_workloads, miri_seeds) = if tier == "quick" { (arg_u64(args, "--miri-workloads", 4), arg_u64(args, "--miri-seeds", 8)) } else { (arg_u64(args, "--miri-workloads", 40), arg_u64(args, "--miri-seeds", 16)) };
+    // C07's Miri findings (out-of-bounds, uninitialised reads, invalid float->int) hardly depend on
+    // the schedule: many workloads, few Miri seeds. C11's (races inside added code) do: fewer
+    // workloads, many seeds each.
+    let (dw, ds) = match (prop.as_str(), tier.as_str()) {
+        ("C07", "quick") => (12, 2),
+        ("C07", _) => (160, 3),
+        (_, "quick") => (4, 8),
+        _ => (40, 16),
+    };
+    let (miri_workloads, miri_seeds) = (arg_u64(args, "--miri-workloads", dw), arg_u64(args, "--miri-seeds", ds));
     let scratch = std::env::temp_dir();
     println!("dsim check property={prop} tier={tier} seed={seed} profile={} runs={runs} jobs={jobs} miri={}", prof.name(), if with_miri { format!("{miri_workloads}x{miri_seeds}") } else { "off".into() });
 
@@ -536,6 +644,12 @@ pub fn check_main(args: &[String]) -> i32 {
         let _ = std::fs::create_dir_all(vdir.join("replay"));
         let mut execs = 0u64;
         // alone in a fresh process, or else as the tail of its session's history
+        if first.key.starts_with("I3:stress") {
+            // found by the free-running scout: look for a deterministic replay under Miri first
+            let path = stress_replay(&vdir, prof, &prop, seed, first, &scratch, &mut min_note);
+            println!("{min_note}");
+            violation_lines.push(format!("VIOLATION property={prop} replay={}", path.display()));
+        } else {
         let aborting = first.key.starts_with("I1:abort");
         let get = |from: u64, to: u64| if aborting { Some(generate_only(prof, seed, from, to)) } else { dump(prof, seed, from, to) };
         let alone = get(first.idx, first.idx + 1);
@@ -577,6 +691,7 @@ pub fn check_main(args: &[String]) -> i32 {
         println!("{min_note}");
         violation_lines.push(format!("VIOLATION property={prop} replay={}", path.display()));
         replay_path = Some(path);
+        }
     }
     if let Some(m) = &miri {
         for (w, d) in &m.failures {
